@@ -104,6 +104,9 @@ def run(src, name, props):
                 checks[p]["tool_error"] = o[-800:]
         result["checks"] = checks
         result["detected"] = any(v["exit"] == 1 for v in checks.values())
+        if not result["detected"] and any(v["exit"] == 2 for v in checks.values()):
+            result["detected"] = None          # the machinery failed (tool error): not an evaluation
+            result["tool_error"] = True
         # the patch as it applies to the current tree
         rc, diff = sh("git diff", cwd=WT)
         dst = os.path.join(ROOT, "seeded", name)
